@@ -286,6 +286,8 @@ func (o *Originator) load(x *ssa.UnOp, c *octx) *Term {
 		return &Term{Op: "load", S: AP(x), V: x}
 	case *ssa.FreeVar:
 		return &Term{Op: "free", S: "free:" + a.Name(), V: x}
+	case *ssa.Global:
+		return &Term{Op: "global", S: AP(a), V: x}
 	case *ssa.IndexAddr:
 		base := o.of(a.X, c)
 		if p, ok := base.APOf(); ok {
